@@ -37,7 +37,7 @@ def victim_view(pkts, mx):
     d = {False: [], True: []}
     for row in e2e.flow_packets(pkts, conn.cip, conn.cport, conn.sip, 17):
         if row[10]:
-            d[row[3] == conn.sip].append(row[10])
+            d[(row[3], row[4]) != (conn.cip, conn.cport)].append(row[10])      # direction by (address, port): both ends may share an address
     return (tuple(d[False]), tuple(d[True]))
 
 
@@ -323,9 +323,9 @@ def run(ctx):
     quic = quic + ["quic_pipeline_corr"]
     import translate                 # decision-logic functions re-translated from the source and proved equal to the model
     _tm, _tt = translate.wire(ctx, "C03")
-    import export_inputs_thms          # whole-program form: bystander conversations unaffected (Props/ExportInputs)
-    ctx.prove(["TLX.Props.C03", "TLX.Props.C04", "TLX.Props.C01Pipeline"] + c02_model.modules(quic) + _tm + export_inputs_thms.MODULES)
-    ctx.require_theorems(export_inputs_thms.THEOREMS_C03)
+    import export_inputs_thms, export_inputs2_thms          # whole-program form: bystander conversations unaffected (Props/ExportInputs)
+    ctx.prove(["TLX.Props.C03", "TLX.Props.C04", "TLX.Props.C01Pipeline"] + c02_model.modules(quic) + _tm + export_inputs_thms.MODULES + export_inputs2_thms.MODULES)
+    ctx.require_theorems(export_inputs_thms.THEOREMS_C03 + export_inputs2_thms.THEOREMS_NAT + export_inputs2_thms.THEOREMS_C03)
     import file_corr
     file_corr.correspond(ctx, ctx.n(12, 200))     # ties the whole-program model (the theorems' subject) file to file
     ctx.require_theorems(_tt)
@@ -366,7 +366,7 @@ def replay(ctx, obj):
                 e = c["endpoints"][0]
                 rows = e2e.flow_packets(pk, bytes.fromhex(e["cip"]), e["cport"], bytes.fromhex(e["sip"]), e["proto"])
                 for di, from_server in enumerate((False, True)):
-                    mine = [row[10] for row in rows if row[10] and (row[3] == bytes.fromhex(e["sip"])) == from_server]
+                    mine = [row[10] for row in rows if row[10] and ((row[3], row[4]) != (bytes.fromhex(e["cip"]), e["cport"])) == from_server]
                     t = c["truth_victim"][di]
                     ok = (b"".join(mine) == bytes.fromhex(t)[:len(b"".join(mine))]) if isinstance(t, str) else \
                         ([x.hex() for x in mine] == t[:len(mine)])
